@@ -382,4 +382,10 @@ def run(ctx):
     ctx.floor("C02.enums", 40, "enum members")
     check_flags_reserved_pl(ctx)
     check_assembly(ctx)
+    from . import gnutil as G
+    G.check_copy_methods(ctx, "C02.copy-faithful", [
+        "geonet.basic_header.BasicHeader", "geonet.service_access_point.TrafficClass", "geonet.gn_address.GNAddress",
+        "geonet.position_vector.LongPositionVector", "geonet.position_vector.ShortPositionVector",
+        "geonet.guc_extended_header.GUCExtendedHeader"])
+    ctx.floor("C02.copy-faithful", 100, "copied fields")
     ctx.extra["codec_methods_analysed"] = n
